@@ -1,6 +1,7 @@
 #!/bin/bash
 # Runs every property's rules on seeded changes (as in-memory overlays; /repo is not touched)
 # and prints which rules report. usage: detection_matrix.sh <outdir> [seeded-id-glob]
+# SEEDED_DIR (default: seeded) names the directory of <id>/patch.diff to run, relative to /verif or absolute.
 cd "$(dirname "$0")/.."
 export PATH=/opt/veriftools/go1.26.8/bin:$PATH GOTOOLCHAIN=local GOFLAGS=-mod=mod GOPROXY=off GOSUMDB=off
 unset GOWORK
@@ -9,10 +10,10 @@ mkdir -p $out
 props=$(${MLRLINT:-./bin/mlrlint} -list)
 run() {
   s=$1; p=$2; out=$3
-  ${MLRLINT:-./bin/mlrlint} -child -prop $p -repo ${VERIF_REPO:-/repo} -verif "$(pwd)" -patch seeded/$s/patch.diff 2>&1 | grep '^CHILD-RESULT' | sed 's/^CHILD-RESULT //' > $out/$s.$p.json
+  ${MLRLINT:-./bin/mlrlint} -child -prop $p -repo ${VERIF_REPO:-/repo} -verif "$(pwd)" -patch ${SEEDED_DIR:-seeded}/$s/patch.diff 2>&1 | grep '^CHILD-RESULT' | sed 's/^CHILD-RESULT //' > $out/$s.$p.json
 }
 export -f run
-for d in seeded/$glob; do s=$(basename $d); for p in $props; do echo "$s $p $out"; done; done | xargs -P 6 -L 1 bash -c 'run $0 $1 $2'
+for d in ${SEEDED_DIR:-seeded}/$glob; do s=$(basename $d); for p in $props; do echo "$s $p $out"; done; done | xargs -P 6 -L 1 bash -c 'run $0 $1 $2'
 python3 - "$out" <<'PY'
 import json,sys,glob,os
 out=sys.argv[1]
